@@ -186,7 +186,7 @@ def random_file(r, maxlines, opt="none", bad_rate=0.0, single_line=False, commen
             if join:
                 name = r.choice(["A", "B"])
             elif r.random() < 0.3:
-                name = r.choice(["A", "B", "AB", "C c"])     # the names the API histories ask for (one a prefix of another)
+                name = r.choice(["A", "B", "AB", "C c", "az", "bY"])     # the names the API histories ask for (one a prefix of another; az / bY: equal djb2 hashes)
             elif used_secs and r.random() < 0.5:
                 name = r.choice(used_secs)          # re-open an earlier section
             used_secs.append(name)
